@@ -101,4 +101,20 @@ GetData(path, d, rp) ==
 
 \* C04: truthfulness of a reported (value, path) pair
 Truthful(d, v, p) == LET ix == Index(d, p) IN ix.ok /\ Same(ix.v, v)
+(***************************************************************************)
+(* DataPath.simplify()                                                     *)
+(***************************************************************************)
+\* simplify(): a primitive where the part is what the primitive is coerced to (labels are ignored by simplify),
+\* the part itself otherwise.  Result: sequence of [prim, v | part]
+SimplifyPart(p) ==
+  IF p.pk = "map" /\ p.cond.t = "leaf" /\ p.cond.datum = "key" /\ p.cond.pre = "none" /\ p.cond.fn = "equal_to"
+     /\ Len(p.cond.kw) = 1
+  THEN [prim |-> TRUE, v |-> p.cond.kw[1].v, part |-> p]
+  ELSE IF p.pk = "mol" /\ p.cond.t = "null"
+          /\ p.lcond.t = "leaf" /\ p.lcond.datum = "index" /\ p.lcond.pre = "none" /\ p.lcond.fn = "equal_to"
+          /\ p.mcond.t = "leaf" /\ p.mcond.datum = "key" /\ p.mcond.pre = "none" /\ p.mcond.fn = "equal_to"
+          /\ Len(p.lcond.kw) = 1
+  THEN [prim |-> TRUE, v |-> p.lcond.kw[1].v, part |-> p]
+  ELSE [prim |-> FALSE, v |-> None, part |-> p]
+Simplify(path) == [j \in 1..Len(path.parts) |-> SimplifyPart(path.parts[j])]
 =============================================================================
